@@ -345,7 +345,13 @@ func (fx *FnCtx) execInstr(st *State, pc *Term, ins ssa.Instruction) {
 			fx.fail("slice-to-array-pointer of a slice with non-zero offset is outside the model")
 		}
 		fx.vals[t] = Value{T: t.Type(), L: []*Term{x.L[0]}}
-	case *ssa.Go, *ssa.Send, *ssa.Select, *ssa.MakeChan:
+	case *ssa.Send:
+		if top := fx.root.top; top != nil && top.fc != nil && top.fc.IgnoreChan {
+			fx.root.noteOnce("ASSUMED in " + top.fn.Name() + ": channel sends are not modelled (declared 'channels ignored'): what the receiver does with the value is outside this contract")
+			return
+		}
+		fx.fail("concurrency instruction %T is outside the verifiable subset", ins)
+	case *ssa.Go, *ssa.Select, *ssa.MakeChan:
 		fx.fail("concurrency instruction %T is outside the verifiable subset", ins)
 	default:
 		fx.fail("unsupported instruction %T", ins)
@@ -567,7 +573,20 @@ func (fx *FnCtx) execSlice(st *State, pc *Term, t *ssa.Slice) {
 		p := fx.asPtr(x)
 		fx.nonNil(pc, p, "slice of array pointer")
 		if !(p.Kind == PElem && p.Idx == nil && len(p.ArrIdx) == 0) {
-			fx.fail("slicing an array embedded in another object is outside the model")
+			// an array that is a field of an object: the slice is given a fresh abstract array holding a
+			// snapshot of the field's current contents. Sound as long as neither the slice nor the field
+			// is written while the other is still read; recorded as an assumption.
+			if lay := tc.Layout(at.Elem()); p.Kind == PObj && len(p.ArrIdx) == 0 && len(lay.Leaves) == 1 {
+				fx.root.noteOnce("ASSUMED in " + fx.fn.Name() + ": a slice of an array field is a snapshot of the field (no write through one is read through the other)")
+				cur := fx.Load(st, p)
+				id := fx.newRef(st)
+				name := arrHeapName(at.Elem(), lay.Leaves[0])
+				h := fx.Heap(st, name, lay.Leaves[0])
+				st.Heaps[name] = Store(h, id, cur.L[0])
+				p = &PtrInfo{Kind: PElem, Arr: id, Root: at.Elem(), Typ: u.Elem()}
+			} else {
+				fx.fail("slicing an array embedded in another object is outside the model")
+			}
 		}
 		n := tc.IdxNum(at.Len())
 		if lo == nil {
